@@ -539,6 +539,9 @@ class Authorization(Endpoint):
                 )
                 if _ver_request.get("client_id", client_id) != client_id:
                     raise ValueError("The request object names another client")
+                # from_jwt() picks the verification keys by issuer
+                if _ver_request.get("iss", client_id) != client_id:
+                    raise ValueError("The request object was issued by another client")
 
         return request
 
